@@ -573,6 +573,10 @@ class AppMutator(BaseMutator):
                                 mutation.field_attrs['db_column'] = \
                                     rename_mutation.db_column
 
+                            if rename_mutation.db_table:
+                                mutation.field_attrs['db_table'] = \
+                                    rename_mutation.db_table
+
                             # Filter out each of the RenameFields.
                             removed_mutations.update(rename_mutations)
 
